@@ -40,9 +40,12 @@ def run_one(chk, sseed, cls):
             pool = scenario.referenced_pool(repo, w.cfgs[repo["url"]])
             if pool:
                 ign_target = rng.choice(sorted(pool))
-                igdir = ign_target.rsplit("/", 1)[0] if rng.random() < 0.5 else ign_target
+                r = rng.random()
+                # the package's directory, the file itself, or the whole letter directory (so that files which only
+                # appear in V2 - and are really requested in the second run - fall under it)
+                igdir = ign_target.rsplit("/", 1)[0] if r < 0.25 else (ign_target if r < 0.4 else ign_target.rsplit("/", 2)[0])
                 extra.append(f"ignore_errors {repo['url']} {igdir}")
-                w.cfgs[repo["url"]]["ignore_errors"].append(igdir)
+                w.cfgs[repo["url"]]["ignore_errors"] = list(w.cfgs[repo["url"]]["ignore_errors"]) + [igdir]
         if extra:
             w.extra_lines = extra
             w.sb.write_config(w.lines + extra, w.settings)
@@ -94,8 +97,10 @@ def run_one(chk, sseed, cls):
                 plans[url], infos[url] = [], {"what": "inconsistent", "entry": name}
                 failing.add(url)
             elif c == "ignore-errors":
-                plans[url] = [[ign_target, "*", rng.choice(scenario.FAULTS)]] if ign_target and ign_target in stores2[url] else []
-                infos[url] = {"what": "ignored", "target": ign_target}
+                on_disk = {e[0] for e in run_e2e.tree(w.sb, url)}
+                plans[url], infos[url] = scenario.gen_plan(rng, "persistent-ignored", repo, w.cfgs[url], stores2[url], skip_pool=on_disk)
+                infos[url]["what"] = "ignored"
+                chk.count("ignored_target_really_requested", 1 if plans[url] else 0)
             elif c == "dist-upgrader":
                 plans[url], infos[url] = [], {"what": "dist-upgrader"}
         before = {r["url"]: views(w, r["url"]) for r in new}
